@@ -210,6 +210,18 @@ type domain struct {
 	small  []octosql.Value
 	pool   []octosql.Value
 	noSum  bool // not for sum/avg (infinities)
+	// growOnly: random histories start with a long growth phase, so that more than 64 distinct
+	// values are present at once (the DISTINCT wrapper's hashmap starts with 128 slots and doubles
+	// when half full; only then do +0.0 and -0.0 stop sharing a bucket)
+	growOnly bool
+}
+
+func manyFloats(nz float64) []octosql.Value {
+	out := fl(0, nz)
+	for i := 1; i <= 150; i++ {
+		out = append(out, octosql.NewFloat(float64(i)*0.5))
+	}
+	return out
 }
 
 func fl(xs ...float64) []octosql.Value {
@@ -260,6 +272,7 @@ func domains() []domain {
 		{name: "float-mixed-magnitude", typeID: octosql.TypeIDFloat, small: fl(1e300, 1e-300, 1),
 			pool: fl(1e300, -1e300, 1e-300, 1, -1, 0.1, 1e16, 1e-16, 3.3e150, math.SmallestNonzeroFloat64, 1<<53, 1<<53+2)},
 		{name: "float-signed-zero", typeID: octosql.TypeIDFloat, small: fl(0, nz, 1), pool: fl(0, nz, 1, -1, 0.5, 2)},
+		{name: "float-signed-zero-many", typeID: octosql.TypeIDFloat, small: fl(0, nz, 2), pool: manyFloats(nz), growOnly: true},
 		{name: "float-inf", typeID: octosql.TypeIDFloat, small: fl(math.Inf(1), math.Inf(-1), 1), noSum: true,
 			pool: fl(math.Inf(1), math.Inf(-1), 1, -1, 0, math.MaxFloat64, -math.MaxFloat64, math.SmallestNonzeroFloat64)},
 		{name: "duration-small", typeID: octosql.TypeIDDuration, small: du(1e9, 2e9, -3e9), pool: du(0, 1, -1, 1e9, 2e9, -3e9, 3600e9)},
@@ -318,6 +331,24 @@ func specs() []spec {
 type step struct {
 	retract bool
 	v       octosql.Value
+	k       string // vals.BitKey(v), precomputed
+}
+
+func mk(retract bool, v octosql.Value) step { return step{retract, v, vals.BitKey(v)} }
+
+// compact identity of a history (for distinct counting)
+func histKey(h []step) string {
+	var sb strings.Builder
+	for _, s := range h {
+		if s.retract {
+			sb.WriteByte('-')
+		} else {
+			sb.WriteByte('+')
+		}
+		sb.WriteString(s.k)
+		sb.WriteByte(' ')
+	}
+	return sb.String()
 }
 
 func histString(h []step) string {
@@ -375,15 +406,17 @@ func (r *runner) runHistory(s spec, h []step, caseID string) int {
 		keyPrefix = "selftest:"
 	}
 	var M []octosql.Value
+	var MK []string
 	sumAbs := 0.0
 	checked := 0
+	bothZerosSeen := false
 	for i, st := range h {
 		if st.retract {
-			k := vals.BitKey(st.v)
 			found := false
-			for j := range M {
-				if vals.BitKey(M[j]) == k {
+			for j := range MK {
+				if MK[j] == st.k {
 					M = append(M[:j], M[j+1:]...)
+					MK = append(MK[:j], MK[j+1:]...)
 					found = true
 					break
 				}
@@ -392,7 +425,11 @@ func (r *runner) runHistory(s spec, h []step, caseID string) int {
 				panic("harness bug: invalid history generated")
 			}
 		} else {
-			M = append(M[:len(M):len(M)], st.v)
+			M = append(M, st.v)
+			MK = append(MK, st.k)
+			if st.v.TypeID == octosql.TypeIDFloat && st.v.Float == 0 && hasBothZeros(M) {
+				bothZerosSeen = true
+			}
 		}
 		if st.v.TypeID == octosql.TypeIDFloat && !math.IsInf(st.v.Float, 0) {
 			sumAbs += math.Abs(st.v.Float)
@@ -431,11 +468,17 @@ func (r *runner) runHistory(s spec, h []step, caseID string) int {
 		// classify
 		key := keyPrefix + "aggregate-mismatch:" + s.name
 		what := fmt.Sprintf("%s over M=%s: Trigger()=%s, from scratch %s (tolerance %g)", s.name, vals.Describe(octosql.NewList(M)), vals.Describe(got), vals.Describe(w.v), tol)
-		if keyPrefix == "" && strings.HasSuffix(s.name, "_distinct") && hasBothZeros(M) {
-			alt := refAgg(s.name, M, true)
-			if sameResult(got, alt, tol) {
-				key = "signed-zero-distinct"
-				what += "; equals the aggregate with +0.0 and -0.0 counted as two distinct values"
+		if keyPrefix == "" && strings.HasSuffix(s.name, "_distinct") && bothZerosSeen {
+			// symptom model: everything is right except the multiplicity k of float zero in the
+			// DISTINCT set (truth: 1 if M holds a zero, else 0). Compare()==0 but Hash() differs for
+			// +0.0/-0.0, so the wrapper's hashmap can hold zero twice, merge the two entries when it
+			// re-inserts a cluster, drop the entry while zeros remain, or retract a zero twice.
+			for _, k := range []int{-1, 0, 1, 2, 3} {
+				if alt, ok := refAggZeroK(s.name, M, k); ok && sameResult(got, alt, tol) {
+					key = "signed-zero-distinct"
+					what += fmt.Sprintf("; equals the aggregate with float zero counted %d times in the distinct set (+0.0 and -0.0 were present together earlier in the history)", k)
+					break
+				}
 			}
 		}
 		rp := replay()
@@ -461,6 +504,52 @@ func hasBothZeros(M []octosql.Value) bool {
 	return pos && neg
 }
 
+// refAggZeroK: the DISTINCT aggregate of M from scratch, except that float zero is given
+// multiplicity k in the distinct set.
+func refAggZeroK(name string, M []octosql.Value, k int) (want, bool) {
+	var D []octosql.Value
+	for _, v := range M {
+		if v.TypeID == octosql.TypeIDFloat && v.Float == 0 {
+			continue
+		}
+		dup := false
+		for _, x := range D {
+			if cmpRef(x, v) == 0 {
+				dup = true
+			}
+		}
+		if !dup {
+			D = append(D, v)
+		}
+	}
+	n := len(D) + k
+	switch strings.TrimSuffix(name, "_distinct") {
+	case "count":
+		return want{v: octosql.NewInt(int64(n))}, true
+	case "sum":
+		if len(D) == 0 {
+			return want{v: octosql.NewFloat(0), floatish: true}, true
+		}
+		return refAgg("sum", D, false), true
+	case "avg":
+		if n <= 0 {
+			return want{}, false
+		}
+		sum := 0.0
+		if len(D) > 0 {
+			sum = refAgg("sum", D, false).v.Float
+		}
+		return want{v: octosql.NewFloat(sum / float64(n)), floatish: true}, true
+	case "array_agg":
+		out := append([]octosql.Value{}, D...)
+		for i := 0; i < k; i++ {
+			out = append(out, octosql.NewFloat(0))
+		}
+		return refAgg("array_agg", out, false), true
+	}
+	return want{}, false
+}
+
 // nontrivial: at least one retraction followed later by a step with non-empty M, and at least two
 // different values.
 func nontrivial(h []step) bool {
@@ -471,7 +560,7 @@ func nontrivial(h []step) bool {
 		if s.retract {
 			retr = true
 		}
-		k := vals.BitKey(s.v)
+		k := s.k
 		if first == "" {
 			first = k
 		} else if k != first {
@@ -515,7 +604,8 @@ func Run(c *core.Ctx) core.FinishOpts {
 		s := t.s
 		cnt := [3]int{}
 		h := make([]step, 0, L)
-		h = append(h, step{false, s.dom.small[t.first]})
+		small := [3]step{mk(false, s.dom.small[0]), mk(false, s.dom.small[1]), mk(false, s.dom.small[2])}
+		h = append(h, small[t.first])
 		cnt[t.first] = 1
 		leaves, nontriv, steps := 0, 0, 0
 		var rec func()
@@ -529,7 +619,7 @@ func Run(c *core.Ctx) core.FinishOpts {
 				steps += r.runHistory(s, h, id)
 				if nontrivial(h) {
 					nontriv++
-					c.Nontrivial(s.id() + "|" + histString(h))
+					c.Nontrivial(s.id() + "|" + histKey(h))
 				}
 				if leaves%9973 == 1 && t.first == 1 {
 					c.Sample(map[string]interface{}{"aggregate": s.name, "overload": s.idx, "domain": s.dom.name, "history": histString(h), "kind": "exhaustive"})
@@ -537,13 +627,13 @@ func Run(c *core.Ctx) core.FinishOpts {
 				return
 			}
 			for v := 0; v < 3; v++ {
-				h = append(h, step{false, s.dom.small[v]})
+				h = append(h, small[v])
 				cnt[v]++
 				rec()
 				cnt[v]--
 				h = h[:len(h)-1]
 				if cnt[v] > 0 {
-					h = append(h, step{true, s.dom.small[v]})
+					h = append(h, step{true, small[v].v, small[v].k})
 					cnt[v]--
 					rec()
 					cnt[v]++
@@ -584,13 +674,13 @@ func Run(c *core.Ctx) core.FinishOpts {
 			return
 		}
 		rng := c.Rng(id)
-		h := randomHistory(rng, t.s.dom.pool, length)
+		h := randomHistory(rng, t.s.dom.pool, length, t.s.dom.growOnly)
 		steps := r.runHistory(t.s, h, id)
 		c.Eval(1)
 		c.Count("random_histories/"+t.s.name, 1)
 		c.Count("random_steps_checked", steps)
 		if nontrivial(h) {
-			c.Nontrivial(id + "|" + core.Hash(histString(h)))
+			c.Nontrivial(id + "|" + histKey(h))
 		}
 		if t.i == 0 && ti%7 == 0 {
 			c.Sample(map[string]interface{}{"aggregate": t.s.name, "overload": t.s.idx, "domain": t.s.dom.name, "history_prefix": histString(h[:12]), "length": len(h), "kind": "random"})
@@ -607,15 +697,22 @@ func Run(c *core.Ctx) core.FinishOpts {
 	}
 }
 
-func randomHistory(rng *rand.Rand, pool []octosql.Value, n int) []step {
+func randomHistory(rng *rand.Rand, pool []octosql.Value, n int, growFirst bool) []step {
 	var h []step
-	var M []octosql.Value
+	var M []step
+	ps := make([]step, len(pool))
+	for i := range pool {
+		ps[i] = mk(false, pool[i])
+	}
 	mode := 0 // 0 grow, 1 shrink, 2 drain
 	left := 0
 	for len(h) < n {
 		if left == 0 {
 			mode = rng.Intn(3)
 			left = 5 + rng.Intn(60)
+			if growFirst && len(h) == 0 {
+				mode, left = 0, 300+rng.Intn(200)
+			}
 		}
 		left--
 		pRetract := 30
@@ -627,7 +724,7 @@ func randomHistory(rng *rand.Rand, pool []octosql.Value, n int) []step {
 		}
 		if len(M) > 0 && rng.Intn(100) < pRetract {
 			j := rng.Intn(len(M))
-			h = append(h, step{true, M[j]})
+			h = append(h, step{true, M[j].v, M[j].k})
 			M[j] = M[len(M)-1]
 			M = M[:len(M)-1]
 			continue
@@ -636,13 +733,20 @@ func randomHistory(rng *rand.Rand, pool []octosql.Value, n int) []step {
 			left = 0
 		}
 		// a few values dominate so that duplicates (count > 1 per tree item) are frequent
-		var v octosql.Value
-		if rng.Intn(3) == 0 {
-			v = pool[rng.Intn(len(pool))]
+		var v step
+		if growFirst {
+			// zeros often, the rest uniformly
+			if rng.Intn(8) == 0 {
+				v = ps[rng.Intn(2)]
+			} else {
+				v = ps[rng.Intn(len(ps))]
+			}
+		} else if rng.Intn(3) == 0 {
+			v = ps[rng.Intn(len(ps))]
 		} else {
-			v = pool[rng.Intn(1+len(pool)/2)]
+			v = ps[rng.Intn(1+len(ps)/2)]
 		}
-		h = append(h, step{false, v})
+		h = append(h, v)
 		M = append(M, v)
 	}
 	return h
@@ -659,7 +763,7 @@ func selfTest(c *core.Ctx, all []spec) {
 				continue
 			}
 			d := s.dom.small
-			h = []step{{false, d[0]}, {false, d[0]}, {false, d[1]}, {true, d[0]}, {false, d[2]}, {true, d[1]}, {false, d[2]}}
+			h = []step{mk(false, d[0]), mk(false, d[0]), mk(false, d[1]), mk(true, d[0]), mk(false, d[2]), mk(true, d[1]), mk(false, d[2])}
 			before := c.Violations()
 			r.runHistory(s, h, "selftest/"+mode+"/"+s.id())
 			if c.Violations() > before {
